@@ -171,11 +171,23 @@ def ref_decode(data, encodings):
     return None
 
 
-def encodable(s, encoding):
+def can_encode(s, encoding):
     try:
         s.encode(encoding)
         return True
     except UnicodeEncodeError:
+        return False
+
+
+def encodable(s, encoding):
+    """
+    representable: encodes AND decodes back to the same text.  CPython's cp932 encoder accepts six characters
+    (cent, pound, not sign, double vertical line, minus sign, wave dash) that come back as their full-width / look-alike
+    forms; such a text cannot be "saved exactly" by anybody, so it is outside the domain.
+    """
+    try:
+        return s.encode(encoding).decode(encoding) == s
+    except (UnicodeEncodeError, UnicodeDecodeError):
         return False
 
 
@@ -408,7 +420,7 @@ class Plan:
     Shared between a wrapper filesystem and the files it hands out.  `log` is the sequence of calls seen so far as
     (operation, file name, payload length); the call with index `at` fails (variant "partial": a write stores the first
     half of its payload before failing; a failing close still closes the underlying file, i.e. the error is reported
-    late).  `completed` lists the names of files whose close returned normally.
+    late).  `completed` lists the names of files whose close returned normally before the injected failure.
     """
 
     def __init__(self, at=None, variant="before"):
@@ -462,7 +474,8 @@ class WriteProxy:
         self._real.close()
         if failing:
             raise self._plan.fault
-        self._plan.completed.append(self._name)
+        if not self._plan.fired:  # a close that merely cleans up after the injected failure completes nothing
+            self._plan.completed.append(self._name)
 
     def __enter__(self):
         return self
@@ -551,6 +564,8 @@ def repertoire(enc):
             b = ch.encode(enc)
         except UnicodeEncodeError:
             continue
+        if b.decode(enc) != ch:
+            continue
         if enc != "utf-8":
             allc.append(ch)
         probe = b"#A:" + b + b";\n"
@@ -574,7 +589,7 @@ def repertoire(enc):
 def unencodable_char(encoding):
     """a character the encoding cannot represent (re-verified with str.encode); None if there is none"""
     for ch in ("\u30df", "\u00e9", "\uac00", "\u20ac", "\udc80"):
-        if not encodable(ch, encoding):
+        if not can_encode(ch, encoding):
             return ch
     return None
 
